@@ -47,7 +47,7 @@ def _sqrt(eng, st, x):
 
 
 # ----------------------------------------------------------------------------- lemmas (each proved once, used by explicit instances)
-from pyvc.symex import LemmaInst
+from pyvc.symex import EngineError, LemmaInst
 
 LEMMAS = {}
 
@@ -409,6 +409,14 @@ _ICUM = z3.Function("ICUM", _I, _I, _I, _R, _I, _R)
 SPEC_FUNCS["ICUM"] = lambda eng, st, n, p, k, scale, q: _ICUM(to_z3(n), to_z3(p), to_z3(k), to_z3(to_real(scale)), to_z3(q))
 
 
+@spec("funcref")
+def _funcref(eng, st, key):
+    fi = eng.repo.func(key)
+    if fi is None:
+        raise EngineError(f"funcref: no function {key}")
+    return FuncRef("func", fi, name=fi.node.name)
+
+
 @spec("typeis")
 def _typeis(eng, st, v, name):
     if isinstance(v, FuncRef) and v.kind == "func":
@@ -546,3 +554,120 @@ def _hasnan(eng, st, a):
 _MWTHR = z3.Function("MWTHR", _I, _I, _I, _R, _R)
 SPEC_FUNCS["MWTHR"] = lambda eng, st, n, p, b, level: _MWTHR(to_z3(n), to_z3(p), to_z3(b), to_z3(to_real(level)))
 _QUANT = z3.Function("QUANTILE", _I, _R, _R)      # np.quantile(scores-array id, q)
+
+
+# ----------------------------------------------------------------------------- affected components (C16)
+# SORTV(tok,s,e,r): the r-th largest value of the saving row SC2(tok,s,e,.) (non-increasing rearrangement);
+# CUMPEN(tok,s,e,alpha,bid,k): cumulative penalised saving of the k+1 largest components: sum_{r<=k}(SORTV(r) - beta_r) - alpha.
+_SORTV = z3.Function("SORTV", _I, _I, _I, _I, _R)
+_CUMPEN = z3.Function("CUMPEN", _I, _I, _I, _R, _I, _I, _R)
+SPEC_FUNCS["SORTV"] = lambda eng, st, tok, s, e, r: _SORTV(to_z3(tok), to_z3(s), to_z3(e), to_z3(r))
+SPEC_FUNCS["CUMPEN"] = lambda eng, st, tok, s, e, alpha, bid, k: _CUMPEN(to_z3(tok), to_z3(s), to_z3(e), to_z3(to_real(alpha)), to_z3(bid), to_z3(k))
+
+
+@spec("AX_sorted_unique")
+def _ax_sorted_unique(eng, st, tok, s, e, order, q):
+    """Axiom (no machine proof here): if `order` maps 0..q-1 injectively into 0..q-1 and lists the row SC2(tok,s,e,.) in non-increasing
+    order, then SC2(tok,s,e,order[r]) == SORTV(tok,s,e,r) -- the non-increasing rearrangement of a finite sequence is unique.
+    The premises are side obligations of every instance."""
+    from pyvc.state import fresh_int
+    r, r2 = fresh_int("r"), fresh_int("r")
+    tok, s, e, q = to_z3(tok), to_z3(s), to_z3(e), to_z3(q)
+    o = lambda x: to_z3(order.get(x))
+    V = lambda c: _SC[2](tok, s, e, c)
+    prem = [
+        z3.ForAll([r], z3.Implies(z3.And(0 <= r, r < q), z3.And(0 <= o(r), o(r) < q)), patterns=[o(r)]),
+        z3.ForAll([r, r2], z3.Implies(z3.And(0 <= r, r < r2, r2 < q), o(r) != o(r2)), patterns=[z3.MultiPattern(o(r), o(r2))]),
+        z3.ForAll([r, r2], z3.Implies(z3.And(0 <= r, r <= r2, r2 < q), V(o(r)) >= V(o(r2))), patterns=[z3.MultiPattern(o(r), o(r2))]),
+    ]
+    concl = z3.ForAll([r], z3.Implies(z3.And(0 <= r, r < q), V(o(r)) == _SORTV(tok, s, e, r)), patterns=[_SORTV(tok, s, e, r), o(r)])
+    eng.note_assumption("mathematics (axiom AX_sorted_unique, not machine-proved): the non-increasing rearrangement of a finite sequence is unique, "
+                        "so any injective sorting order yields SORTV; the premises (range, injective, sorted) are proved at each use")
+    return LemmaInst("AX_sorted_unique", prem, concl)
+
+
+LEMMA_PROOFS["AX_sorted_unique"] = lambda: []     # axiom: nothing to discharge, listed among the assumptions
+
+
+# BETA(bid, j): the j-th element of the penalty-increment sequence named `bid`. arrid(a) names the array a (BETA(arrid(a), j) == a[j]);
+# PEN_BID(kind, n, p, k, scale) names the betas of the built-in penalty `kind` (0 dense, 1 sparse, 2 intermediate, 3 combined) by closed form.
+_BETA = z3.Function("BETA", _I, _I, _R)
+_PEN_BID = z3.Function("PEN_BID", _I, _I, _I, _I, _R, _I)
+SPEC_FUNCS["BETA"] = lambda eng, st, bid, j: _BETA(to_z3(bid), to_z3(j))
+SPEC_FUNCS["PEN_BID"] = lambda eng, st, kind, n, p, k, scale: _PEN_BID(to_z3(kind), to_z3(n), to_z3(p), to_z3(k), to_z3(to_real(scale)))
+
+
+def _cumpen_rec(tokz, sz, ez, al, bid, qz):
+    k = z3.Int(fresh_name("k"))
+    C = lambda kk: _CUMPEN(tokz, sz, ez, al, bid, kk)
+    S = lambda rr: _SORTV(tokz, sz, ez, rr)
+    return [C(0) == S(0) - _BETA(bid, 0) - al,
+            z3.ForAll([k], z3.Implies(z3.And(0 <= k, k + 1 < qz), C(k + 1) == C(k) + S(k + 1) - _BETA(bid, k + 1)), patterns=[C(k + 1)])]
+
+
+@spec("ARRID_DEF")
+def _arrid_def(eng, st, a):
+    """Definition of the name arrid(a): BETA(arrid(a), j) == a[j]."""
+    j = z3.Int(fresh_name("j"))
+    bid = _arrid(eng, st, a)
+    st.assume(z3.ForAll([j], z3.Implies(z3.And(0 <= j, j < to_z3(a.shape[0])), _BETA(bid, j) == to_z3(to_real(a.get(j)))), patterns=[_BETA(bid, j)]))
+    eng.note_assumption("definition: arrid(a) names the sequence of the array a (BETA(arrid(a), j) == a[j])")
+    return True
+
+
+@spec("CUMPEN_DEF")
+def _cumpen_def(eng, st, tok, s, e, alpha, betas, q):
+    """Definition of CUMPEN by its recurrence (instance for this row and the sequence named arrid(betas))."""
+    _arrid_def(eng, st, betas)
+    for f in _cumpen_rec(to_z3(tok), to_z3(s), to_z3(e), to_z3(to_real(alpha)), _arrid(eng, st, betas), to_z3(q)):
+        st.assume(f)
+    eng.note_assumption("definition of the spec function CUMPEN (cumulative penalised saving of the k+1 largest components) by its recurrence")
+    return True
+
+
+def _pen_closed(kind, n, p, k, scale, j):
+    """Closed form of beta_j of the built-in penalties (the proved / assumed post-conditions of the *_mvcapa_penalty functions)."""
+    n, p, k, j = z3.ToReal(n) if False else n, p, k, j
+    kp = z3.ToReal(k * p)
+    lg = _LOG(z3.ToReal(n))
+    dense = scale * (kp + 2 * _SQRT(kp * lg) + 2 * lg)
+    sparse = lambda q: 2 * scale * lg + z3.ToReal(q) * (2 * scale * _LOG(kp))
+    inter = lambda q: _ICUM(n, p, k, scale, q)
+    mn = lambda a, b: z3.If(a <= b, a, b)
+    min3 = lambda q: z3.If(q == 0, z3.RealVal(0), mn(mn(dense, sparse(q)), inter(q)))
+    return {0: z3.RealVal(0), 1: 2 * scale * _LOG(kp), 2: inter(j + 1) - inter(j), 3: min3(j + 1) - min3(j)}[kind]
+
+
+@spec("PEN_BID_DEF")
+def _pen_bid_def(eng, st, kind, n, p, k, scale):
+    """Definition of the named sequence PEN_BID(kind, n, p, k, scale) by the closed form of the built-in penalty's betas."""
+    j = z3.Int(fresh_name("j"))
+    n, p, k, scale = to_z3(n), to_z3(p), to_z3(k), to_z3(to_real(scale))
+    bid = _PEN_BID(z3.IntVal(kind), n, p, k, scale)
+    st.assume(z3.ForAll([j], z3.Implies(z3.And(0 <= j, j < p), _BETA(bid, j) == _pen_closed(kind, n, p, k, scale, j)), patterns=[_BETA(bid, j)]))
+    eng.note_assumption("definition: PEN_BID(kind, n, p, k, scale) names the closed-form beta sequence of the built-in MVCAPA penalty `kind`")
+    return True
+
+
+@spec("L_cumpen_ext")
+def _l_cumpen_ext(eng, st, tok, s, e, alpha, bid1, bid2, q):
+    """CUMPEN depends on the named beta sequence only through its first q values (proved by induction in LEMMA_PROOFS)."""
+    j, k = z3.Int(fresh_name("j")), z3.Int(fresh_name("k"))
+    tokz, sz, ez, al, b1, b2, qz = to_z3(tok), to_z3(s), to_z3(e), to_z3(to_real(alpha)), to_z3(bid1), to_z3(bid2), to_z3(q)
+    prem = [qz >= 1, z3.ForAll([j], z3.Implies(z3.And(0 <= j, j < qz), _BETA(b1, j) == _BETA(b2, j)), patterns=[_BETA(b1, j)])]
+    concl = z3.ForAll([k], z3.Implies(z3.And(0 <= k, k < qz), _CUMPEN(tokz, sz, ez, al, b1, k) == _CUMPEN(tokz, sz, ez, al, b2, k)),
+                      patterns=[_CUMPEN(tokz, sz, ez, al, b1, k), _CUMPEN(tokz, sz, ez, al, b2, k)])
+    return LemmaInst("L_cumpen_ext", prem, concl)
+
+
+def _cumpen_ext_proof():
+    tok, s, e, b1, b2, q, i, j = z3.Ints("tok!E s!E e!E b1!E b2!E q!E i!E j!E")
+    al = z3.Real("al!E")
+    hyp = _cumpen_rec(tok, s, e, al, b1, q) + _cumpen_rec(tok, s, e, al, b2, q) + [
+        q >= 1, z3.ForAll([j], z3.Implies(z3.And(0 <= j, j < q), _BETA(b1, j) == _BETA(b2, j)), patterns=[_BETA(b1, j)])]
+    C = lambda b, k: _CUMPEN(tok, s, e, al, b, k)
+    return [(".base", hyp, C(b1, 0) == C(b2, 0)),
+            (".step", hyp + [0 <= i, i + 1 < q, C(b1, i) == C(b2, i)], C(b1, i + 1) == C(b2, i + 1))]
+
+
+LEMMA_PROOFS["L_cumpen_ext"] = _cumpen_ext_proof
